@@ -80,7 +80,7 @@ DoReset ==
      /\ gh' = GhostInit(1..Line.n, o.qmap)
      /\ ex' = [sc |-> Line.sc, run |-> Line.run, drift |-> 0, drained |-> FALSE]
      /\ sum' = AddFails([sum EXCEPT !.execs = @ + 1, !.kf = @ \cup gh.kf],
-                        IF ApiOk(Line.st) THEN {} ELSE {[mon |-> "C01", line |-> l, sc |-> Line.sc, run |-> Line.run]})
+                        IF ApiOk(Line.st) /\ ListOk(Line.st) THEN {} ELSE {[mon |-> "C01", line |-> l, sc |-> Line.sc, run |-> Line.run]})
 
 DoCall ==
   /\ Line.k = "call"
@@ -158,7 +158,7 @@ DoEnd ==
   /\ LET o2 == ObsOf(Line.st) IN
      /\ ob' = o2
      /\ sum' = AddFails([sum EXCEPT !.kf = @ \cup gh.kf],
-                        (IF o2 = ob /\ ApiOk(Line.st) THEN {} ELSE {Fail("C01", l)})
+                        (IF o2 = ob /\ ApiOk(Line.st) /\ ListOk(Line.st) THEN {} ELSE {Fail("C01", l)})
                         \cup (IF ~Quiescent(gh) THEN {}
                               ELSE QuietFails(o2, gh, l)
                                    \cup (IF ex.drained /\ ~Mon_C08_drained(o2, gh) THEN {Fail("C08", l)} ELSE {})))
